@@ -168,7 +168,7 @@ def gen_items(chk, tier):
 
 def run(tier, seed):
     chk = core.Check(PROP, tier, seed)
-    b = core.build()
+    b = M.build_and_snapshot(chk)
     chk.proof_obligations('Props/C06.v', b)
     items = gen_items(chk, tier)
     tasks = [it['task'] for it in items]
@@ -183,8 +183,11 @@ def run(tier, seed):
         sig, detail = M.judge_disjoint(res, it['expected'])
         if sig:
             chk.violation(sig, {'task': it['task'], 'expected': it['expected'], 'src': it['src']}, detail)
-    prio = lambda t: 0 if t['op'] == 'merge_nb' else 1
-    order = sorted(range(len(tasks)), key=lambda i: prio(tasks[i]))
+    fam = [it['src'] for it in items]
+    seen = {}; rank = []
+    for f in fam:
+        seen[f] = seen.get(f, 0) + 1; rank.append(seen[f])
+    order = sorted(range(len(tasks)), key=lambda i: (rank[i], fam[i]))
     st = M.t1(chk, [tasks[i] for i in order], [results[i] for i in order], b, limit=(12000 if tier == 'quick' else 80000))
     chk.cov.update({
         'evaluations': len(tasks), 'distinct_nontrivial': len(nontriv),
@@ -198,6 +201,7 @@ def run(tier, seed):
     })
     for it in items[:1] + items[len(items) // 2: len(items) // 2 + 1] + items[-1:]:
         chk.sample({'src': it['src'], 'task': it['task'], 'expected': it['expected']}, limit=3)
+    M.drop_snapshot()
     return chk.finish('proof', M.ASSUME)
 
 def replay(path):
